@@ -13,7 +13,7 @@ TIERS = {"quick": dict(examples=12000), "thorough": dict(examples=300000)}
 RULE = ("A real DilatedConnectionProtocol pair (built by Connector.build_protocol, real _Framer/_Record/Noise) "
         "joined by byte pipes whose chunking is drawn from the tape (1..5 bytes, around the 48-byte handshake, "
         "around 65535, everything). Records of all types with 32-bit boundary ids/seqnums, payload lengths "
-        "{0,1,65509..65511,65519,65520,65535,131038,131039, random<=200000}, non-ASCII subprotocol names, both "
+        "{0,1,2^k and k*65519 / k*65535 (k=1..3) with neighbours, as payload and as encoded length, random<=200000}, non-ASCII subprotocol names, both "
         "directions, relay handshake on/off, selection immediately or one delivery later (inbound queue). Hostile "
         "variants against one victim end by a party without the dilation key: wrong/near-miss/other-role "
         "prologue, wrong relay reply, Noise handshake under another PSK, frames encrypted in another session, "
@@ -33,6 +33,13 @@ SIZES = [0, 1, 2, 100, 65509, 65510, 65511, 65519, 65520, 65534, 65535, 65536, 1
 for _k in (8, 12, 14, 15, 16, 17):
     for _d in (-1, 0, 1):
         SIZES += [2 ** _k + _d, max(0, 2 ** _k + _d - 9), max(0, 2 ** _k + _d - 25)]
+# multiples of the Noise packet limits (plaintext 65519, ciphertext 65535) and neighbours, as encoded record
+# lengths (payload + 9 bytes of Data header)
+for _k in (1, 2, 3):
+    for _u in (65519, 65535):
+        for _d in (-1, 0, 1):
+            SIZES += [_k * _u + _d, _k * _u + _d - 9]
+SIZES = sorted(set(x for x in SIZES if x >= 0))
 U32 = st.sampled_from([0, 1, 2, 255, 256, 65535, 65536, 2 ** 31 - 1, 2 ** 31, 2 ** 32 - 2, 2 ** 32 - 1]) | st.integers(0, 2 ** 32 - 1)
 
 
@@ -61,6 +68,7 @@ def records(draw):
 def cases(draw, tier="quick"):
     c = {}
     c["relay"] = draw(st.sampled_from([None, None, "leader", "follower"]))   # which end dials through a relay
+    c["relay_coalesce"] = draw(st.booleans())      # the relay's reply is not a TCP segment of its own
     c["late_select"] = draw(st.booleans())
     c["recs"] = [draw(st.lists(records(), max_size=6)), draw(st.lists(records(), max_size=6))]
     c["hostile"] = draw(st.sampled_from([None, None, None, "prologue", "relayreply", "psk", "otherkey", "flip",
@@ -207,9 +215,13 @@ def run_case(c):
         """move bytes from src's out buffer into dst.dataReceived"""
         if data is None:
             buf = src["t"].out
-            n = len(buf) if n is None else max(1, min(n, len(buf)))
-            data = bytes(buf[:n])
-            del buf[:n]
+            pre = dst.get("prefix") or bytearray()       # the relay's reply travels in front of the peer's bytes
+            total = len(pre) + len(buf)
+            n = total if n is None else max(1, min(n, total))
+            k = min(n, len(pre))
+            data = bytes(pre[:k]) + bytes(buf[:n - k])
+            del pre[:k]
+            del buf[:n - k]
         if dst["t"].lose or not data:
             return
         dst["delivered_in"] += len(data)
@@ -229,7 +241,11 @@ def run_case(c):
             if hostile == "relayreply" and ends.index(e) == victim:
                 reply = [b"no\n", b"okay\n", b"o", b"\n", b"ok\r\n", b"impatient\n"][c["hparam"] % 6]
                 e["hostile_done"] = True
-            deliver(None, e, data=reply)
+            if c.get("relay_coalesce") and hostile != "prologue":     # (that variant rewrites the prologue the
+                # relayed end has already written, so it needs the reply delivered first)
+                e["prefix"] = bytearray(reply)        # TCP may coalesce it with what the relay forwards next
+            else:
+                deliver(None, e, data=reply)
 
     def select_step():
         # leader: candidate -> select + KCM; follower: candidate -> select
@@ -335,9 +351,9 @@ def run_case(c):
         select_step()
         ready = L["selected"] and F["selected"]
         choices = []
-        if L["t"].out and not F["t"].lose:
+        if (L["t"].out or F.get("prefix")) and not F["t"].lose:
             choices.append("L>F")
-        if F["t"].out and not L["t"].lose:
+        if (F["t"].out or L.get("prefix")) and not L["t"].lose:
             choices.append("F>L")
         for i in range(2):
             # an end may send as soon as it is selected itself (the Leader replays its queue right
@@ -427,7 +443,7 @@ def run_case(c):
         applied = flip_done[0] or hostile in ("prologue", "psk", "relayreply")
         if hostile == "relayreply" and not V.get("hostile_done"):
             applied = False
-        if applied and not dropped and not (L["t"].out or F["t"].out):
+        if applied and not dropped and not (L["t"].out or F["t"].out or L.get("prefix") or F.get("prefix")):
             res.violate("reject", "hostile element (%s, param %d) fully delivered but the victim did not close" % (
                 hostile, c["hparam"]), input_class="not-dropped:%s" % hostile)
         if hostile in ("prologue", "psk", "relayreply") and applied and (L["m"].records or F["m"].records or
